@@ -34,11 +34,14 @@ func init() {
 		{Kind: "block", Name: "ReadN_window", Func: rn, Anchor: "b.cur", Occur: 1, Solo: true},
 		// Reset: the clamp of size, the grow decision, the allocated and the re-sliced length
 		{Kind: "block", Name: "Reset_clamp", Func: rs, Anchor: "size", Occur: 1, Up: 1, Solo: true},
-		// oldsize := cap(b.buf) - reservedbuf (the hidden tail of b.buf — what lies between len and cap — is a parameter)
-		{Kind: "block", Name: "Reset_oldsize", Func: rs, Anchor: "oldsize", Solo: true},
 		{Kind: "cond", Name: "Reset_grow", Func: rs, Anchor: "size > ", Occur: 2},
 		{Kind: "arg", Name: "Reset_allocLen", Func: rs, Anchor: "make", Arg: 1},
 		{Kind: "slice", Name: "Reset_len", Func: rs, Anchor: "b.buf", Part: "hi"},
 		{Kind: "methodset", Name: "readBuffer", Methods: "Reset ReadN"},
+	}})
+	// a unit of its own, so that a change of Reset that loses this anchor does not take the other items' theorems with it:
+	// oldsize := cap(b.buf) - reservedbuf (the hidden tail of b.buf — what lies between len and cap — is a parameter)
+	units = append(units, Unit{Name: "readbuffercap", Dir: "decoder", Items: []Item{
+		{Kind: "block", Name: "Reset_oldsize", Func: rs, Anchor: "oldsize", Solo: true},
 	}})
 }
